@@ -46,6 +46,11 @@ for _cls, _typ in (("DimArray", DimArray), ("Dataset", Dataset), ("Axis", Axis))
         NAMES[_cls]["method" if hasattr(_typ, _nm) else "public"].append(_nm)
 
 
+for _cls in NAMES:
+    # public, no class member (not in dir(cls), instances do not have it) - but hasattr(cls, 'mro') is True: it lives on the metaclass `type`
+    NAMES[_cls]["public"].append("mro")
+
+
 def _prime(cls):
     """touch every name of this class' alphabet on fresh objects of the OTHER two classes first (set, get, delete; failures ignored):
     what the library learns about a name on one class must not decide how another class routes it"""
@@ -349,6 +354,11 @@ def _base(sing=False):
     return s
 
 
+def _with_attrs(b, a):
+    b.attrs.update(a.attrs)      # (the harness builds this array itself, around the sliced Axis whose metadata is the subject)
+    return b
+
+
 def _other_axis(labels):
     ax = Axis(np.array(labels), "x")
     ax.attrs["units"] = "km"
@@ -364,6 +374,8 @@ KEEP_OPS = {   # name -> (callable on a, axes whose attrs must survive or None)
     "ds_loc_collapse": (lambda a: Dataset(v=a[:, "a"], w=a).loc[10]["v"], None),
     "ds_mean_collapse": (lambda a: Dataset(v=a[:, "a"], w=a).mean(axis="x")["v"], None),
     "ds_sum_collapse": (lambda a: Dataset(v=a[:, "a"]).sum(axis="x")["v"], None),
+    "to_dataset_1d": (lambda a: a[:, "a"].to_dataset(axis="x")[10], None), "to_dataset_2d": (lambda a: a.to_dataset(axis="x")[10], ["y"]),
+    "axis_empty_list": (lambda a: _with_attrs(DimArray(a.values[:0], axes=[a.axes["x"][[]], a.axes["y"]]), a), ["x", "y"]),
     "idx_2d": (lambda a: a[[20, 30], "a"], ["x"]), "idx_bcast": (lambda a: a.take(([10, 30], "a"), broadcast=True), ["x"]),
     "idx_bcast_mask": (lambda a: a.take((np.array([True, False, True]), "b"), broadcast=True), ["x"]), "take_axis": (lambda a: a.take_axis([10, 30], axis="x"), ["x", "y"]),
     "sum": (lambda a: a.sum(axis="x"), None), "mean": (lambda a: a.mean(axis=1), None), "median": (lambda a: a.median(axis="y"), None),
